@@ -181,6 +181,87 @@ func instrumentFile(p *packages.Package, f *ast.File, src []byte, rel, root stri
 		}
 		return "\x00" + other.Path() // marks "not printable here"
 	}
+	// importName: under which name a package is visible in this file (after shim rewriting
+	// the names stay the same)
+	importName := map[string]string{}
+	for _, im := range f.Imports {
+		ipath, _ := strconv.Unquote(im.Path.Value)
+		if im.Name != nil {
+			importName[ipath] = im.Name.Name
+		} else if pk := p.Imports[ipath]; pk != nil {
+			importName[ipath] = pk.Name
+		}
+	}
+	qualFile := func(other *types.Package) string {
+		if other == p.Types {
+			return ""
+		}
+		if n, ok := importName[other.Path()]; ok && n != "_" && n != "." {
+			return n
+		}
+		return "\x00" + other.Path()
+	}
+	typeStr := func(t types.Type, pos token.Pos) string {
+		ts := types.TypeString(t, qualFile)
+		if strings.Contains(ts, "\x00") {
+			fatal("%s:%d: cannot name type %s in this file (channel rewrite)", rel, fset.Position(pos).Line, t.String())
+		}
+		return ts
+	}
+	chanElem := func(e ast.Expr) types.Type {
+		tv, ok := p.TypesInfo.Types[e]
+		if !ok {
+			fatal("%s:%d: no type for channel expression", rel, fset.Position(e.Pos()).Line)
+		}
+		ch, ok := tv.Type.Underlying().(*types.Chan)
+		if !ok {
+			fatal("%s:%d: not a channel", rel, fset.Position(e.Pos()).Line)
+		}
+		return ch.Elem()
+	}
+	srcOf := func(n ast.Node) string { return string(src[off(n.Pos()):off(n.End())]) }
+	// channel operations that belong to a select's communication clause (left intact) and
+	// receives that feed a two-value assignment
+	inComm := map[ast.Node]bool{}
+	twoValue := map[ast.Node]bool{}
+	ast.Inspect(f, func(n ast.Node) bool {
+		switch x := n.(type) {
+		case *ast.CommClause:
+			if x.Comm != nil {
+				inComm[x.Comm] = true
+				switch c := x.Comm.(type) {
+				case *ast.ExprStmt:
+					inComm[c.X] = true
+				case *ast.AssignStmt:
+					if len(c.Rhs) == 1 {
+						inComm[c.Rhs[0]] = true
+					}
+				}
+			}
+		case *ast.AssignStmt:
+			if len(x.Lhs) == 2 && len(x.Rhs) == 1 {
+				if u, ok := x.Rhs[0].(*ast.UnaryExpr); ok && u.Op == token.ARROW {
+					twoValue[u] = true
+				}
+			}
+		case *ast.ValueSpec:
+			if len(x.Names) == 2 && len(x.Values) == 1 {
+				if u, ok := x.Values[0].(*ast.UnaryExpr); ok && u.Op == token.ARROW {
+					twoValue[u] = true
+				}
+			}
+		}
+		return true
+	})
+	recvClosure := func(chExpr ast.Expr, two bool, pos token.Pos) string {
+		et := typeStr(chanElem(chExpr), pos)
+		st := strconv.Itoa(site(pos))
+		if two {
+			return "func() (" + et + ", bool) { zzc := " + srcOf(chExpr) + "; for { select { case zzv, zzok := <-zzc: zzsimrt.ChanDone(); return zzv, zzok; default: zzsimrt.ChanWait(" + st + ") } } }()"
+		}
+		return "func() " + et + " { zzc := " + srcOf(chExpr) + "; for { select { case zzv := <-zzc: zzsimrt.ChanDone(); return zzv; default: zzsimrt.ChanWait(" + st + ") } } }()"
+	}
+	labelN := 0
 
 	doList := func(list []ast.Stmt) {
 		for _, st := range list {
@@ -211,11 +292,44 @@ func instrumentFile(p *packages.Package, f *ast.File, src []byte, rel, root stri
 					hasDefault = true
 				}
 			}
+			for _, c := range x.Body.List {
+				if cc, ok := c.(*ast.CommClause); ok && cc.Comm != nil {
+					// a communication happened: wake tasks parked on channel operations
+					add(off(cc.Colon)+1, off(cc.Colon)+1, " zzsimrt.ChanDone();")
+				}
+			}
 			if !hasDefault {
-				sum.ChannelOps = append(sum.ChannelOps, rel+":"+strconv.Itoa(fset.Position(x.Pos()).Line)+" select without default")
+				// blocking select -> labelled non-blocking select that parks the task in the
+				// simulator when no case is ready and retries:  zzL: select { ...; default: ChanWait; goto zzL }
+				sum.ChannelOps = append(sum.ChannelOps, rel+":"+strconv.Itoa(fset.Position(x.Pos()).Line)+" blocking select (rewritten)")
+				labelN++
+				lbl := "zzsel" + strconv.Itoa(labelN)
+				add(off(x.Select), off(x.Select), lbl+": ")
+				add(off(x.Body.Rbrace), off(x.Body.Rbrace), "default: zzsimrt.ChanWait("+strconv.Itoa(site(x.Pos()))+"); goto "+lbl+"; ")
 			}
 		case *ast.SendStmt:
-			sum.ChannelOps = append(sum.ChannelOps, rel+":"+strconv.Itoa(fset.Position(x.Pos()).Line)+" channel send")
+			if inComm[x] {
+				return true
+			}
+			sum.ChannelOps = append(sum.ChannelOps, rel+":"+strconv.Itoa(fset.Position(x.Pos()).Line)+" channel send (rewritten)")
+			st := strconv.Itoa(site(x.Pos()))
+			add(off(x.Pos()), off(x.End()), "{ zzc := "+srcOf(x.Chan)+"; zzv := "+srcOf(x.Value)+"; for zzs := false; !zzs; { select { case zzc <- zzv: zzs = true; zzsimrt.ChanDone(); default: zzsimrt.ChanWait("+st+") } } }")
+			return false
+		case *ast.UnaryExpr:
+			if x.Op != token.ARROW || inComm[x] {
+				return true
+			}
+			sum.ChannelOps = append(sum.ChannelOps, rel+":"+strconv.Itoa(fset.Position(x.Pos()).Line)+" channel receive (rewritten)")
+			add(off(x.Pos()), off(x.End()), recvClosure(x.X, twoValue[x], x.Pos()))
+			return false
+		case *ast.ExprStmt:
+			if call, ok := x.X.(*ast.CallExpr); ok {
+				if id, ok := call.Fun.(*ast.Ident); ok && id.Name == "close" && len(call.Args) == 1 {
+					if _, isBuiltin := p.TypesInfo.Uses[id].(*types.Builtin); isBuiltin {
+						add(off(x.End()), off(x.End()), "; zzsimrt.ChanDone()")
+					}
+				}
+			}
 		case *ast.ForStmt:
 			if len(x.Body.List) == 0 {
 				add(off(x.Body.Lbrace)+1, off(x.Body.Lbrace)+1, " "+yieldText(x.Body.Lbrace))
@@ -236,8 +350,29 @@ func instrumentFile(p *packages.Package, f *ast.File, src []byte, rel, root stri
 			}
 			mt, ok := tv.Type.Underlying().(*types.Map)
 			if !ok {
-				if _, isChan := tv.Type.Underlying().(*types.Chan); isChan {
-					sum.ChannelOps = append(sum.ChannelOps, rel+":"+strconv.Itoa(fset.Position(x.Pos()).Line)+" range over channel")
+				if ch, isChan := tv.Type.Underlying().(*types.Chan); isChan {
+					sum.ChannelOps = append(sum.ChannelOps, rel+":"+strconv.Itoa(fset.Position(x.Pos()).Line)+" range over channel (rewritten)")
+					_ = ch
+					vname := "_"
+					if id, ok := x.Key.(*ast.Ident); ok {
+						vname = id.Name
+					} else if x.Key != nil {
+						fatal("%s:%d: range-over-channel variable is not an identifier", rel, fset.Position(x.Pos()).Line)
+					}
+					asg := ":="
+					if x.Tok == token.ASSIGN {
+						asg = "="
+					}
+					hdr := "for { "
+					if vname == "_" {
+						hdr += "_, zzok := " + recvClosure(x.X, true, x.Pos()) + "; if !zzok { break }; "
+					} else if asg == ":=" {
+						hdr += vname + ", zzok := " + recvClosure(x.X, true, x.Pos()) + "; if !zzok { break }; _ = " + vname + "; "
+					} else {
+						hdr += "var zzok bool; " + vname + ", zzok = " + recvClosure(x.X, true, x.Pos()) + "; if !zzok { break }; "
+					}
+					add(off(x.For), off(x.Body.Lbrace)+1, hdr)
+					return true
 				}
 				if len(x.Body.List) == 0 {
 					add(off(x.Body.Lbrace)+1, off(x.Body.Lbrace)+1, " "+yieldText(x.Body.Lbrace))
